@@ -150,6 +150,39 @@ def eph_entry(vip, proto, port):
     return ipset_entry('{ip},{proto}:{port}'.format(ip=vip, proto=proto, port=port))
 
 
+@spec
+def infra_present(vip, proto, port):
+    return fs_kind(ipset_dir('tm:container-infra-services'), eph_entry(vip, proto, port))
+
+
+@spec
+def vring_present(vip):
+    return fs_kind(ipset_dir('tm:vring-containers'), ipset_entry(str_of(vip)))
+
+
+@spec
+def reg_ipset(app, vip, d, n):
+    """(d, n) is an ip-set entry that a start of this manifest registers."""
+    return ((d == ipset_dir('tm:vring-containers') and n == ipset_entry(str_of(vip)) and app.vring) or
+            (d == ipset_dir('tm:container-infra-services') and
+             (exists(lambda j: 0 <= j and j < len(app.endpoints) and app.endpoints[j].type == 'infra' and
+                     n == eph_entry(vip, app.endpoints[j].proto, app.endpoints[j].port), 'Int') or
+              exists(lambda j: 0 <= j and j < len(app.ephemeral_ports.tcp) and
+                     n == eph_entry(vip, 'tcp', app.ephemeral_ports.tcp[j]), 'Int') or
+              exists(lambda j: 0 <= j and j < len(app.ephemeral_ports.udp) and
+                     n == eph_entry(vip, 'udp', app.ephemeral_ports.udp[j]), 'Int'))))
+
+
+@spec
+def ipsets_only(tm_env, app, vip, added):
+    """Outside the rules and endpoints directories nothing changes except ip-set registrations of the manifest, which
+    only appear (added) resp. only disappear."""
+    return forall(lambda d, n: implies(d != rules_dir(tm_env) and d != tm_env.endpoints._base_path,
+                                       fs_kind(d, n) == old(fs_kind(d, n)) or
+                                       (fs_kind(d, n) == (1 if added else 0) and reg_ipset(app, vip, d, n))),
+                  'Name', 'Name')
+
+
 # ------------------------------------------------------------------ _finish._cleanup_ephemeral_ports
 contract(FIN + ':_cleanup_ephemeral_ports',
          types={'tm_env': 'AppEnvironment', 'unique_name': 'Name', 'external_ip': 'Name', 'vip': 'Name',
@@ -167,14 +200,17 @@ contract(FIN + ':_cleanup_ephemeral_ports',
                   ('C16', 'forall(lambda j: implies(0 <= j and j < len(ports), '
                           '       fs_kind(ipset_dir("tm:container-infra-services"), eph_entry(vip, proto, ports[j])) == 0), "Int")',
                    'infra_entries_removed'),
-                  # outside the rules directory entries only ever disappear
+                  # outside the rules directory only the infra entries of these ports change, and they only disappear
                   ('C16', 'forall(lambda d, n: implies(d != rules_dir(tm_env), fs_kind(d, n) == old(fs_kind(d, n)) or '
-                          '       fs_kind(d, n) == 0), "Name", "Name")', 'nothing_added_elsewhere')],
+                          '       (fs_kind(d, n) == 0 and d == ipset_dir("tm:container-infra-services") and '
+                          '        exists(lambda j: 0 <= j and j < len(ports) and n == eph_entry(vip, proto, ports[j]), "Int"))), '
+                          '       "Name", "Name")', 'nothing_added_elsewhere')],
          modifies=['fs', 'alloc'], props=['C16'])
 invariant(FIN + ':_cleanup_ephemeral_ports', 0, 'for port in ports',
           ['rules_wf(tm_env)', 'encoding_ok(tm_env)',
            ('C16', 'forall(lambda d, n: implies(d != rules_dir(tm_env), fs_kind(d, n) == old(fs_kind(d, n)) or '
-                   '       fs_kind(d, n) == 0), "Name", "Name")'),
+                   '       (fs_kind(d, n) == 0 and d == ipset_dir("tm:container-infra-services") and '
+                   '        exists(lambda j: 0 <= j and j < _i and n == eph_entry(vip, proto, ports[j]), "Int"))), "Name", "Name")'),
            ('C16', 'forall(lambda j: implies(0 <= j and j < _i, '
                    '       not owned(tm_env, eph_key(proto, external_ip, vip, ports[j]), unique_name)), "Int")'),
            ('C16', 'forall(lambda n: implies(not rule_same(tm_env, n), '
@@ -265,13 +301,22 @@ contract(FIN + ':_cleanup_network',
                   ('C16', 'not net_allocated(uname_of(app)) or '
                           ' forall(lambda j: implies(0 <= j and j < len(app.ephemeral_ports.udp), '
                           '   fs_kind(ipset_dir("tm:container-infra-services"), eph_entry(net_vip(uname_of(app)), "udp", app.ephemeral_ports.udp[j])) == 0), "Int")',
-                   'udp_infra_entries_removed')],
+                   'udp_infra_entries_removed'),
+                  ('C16', 'not net_allocated(uname_of(app)) or '
+                          ' forall(lambda j: implies(0 <= j and j < len(app.endpoints) and app.endpoints[j].type == "infra", '
+                          '   infra_present(net_vip(uname_of(app)), app.endpoints[j].proto, app.endpoints[j].port) == 0), "Int")',
+                   'endpoint_infra_entries_removed'),
+                  # ip sets carry no owner: only entries of this manifest (keyed by its vip) may go, nothing may appear
+                  ('C16', 'ipsets_only(tm_env, app, net_vip(uname_of(app)), False)', 'only_own_ipset_entries_removed'),
+                  # repeatable: once the network resource is freed a finish touches NOTHING (not even ip sets)
+                  ('C16', 'implies(not net_allocated(uname_of(app)), fs_same())', 'freed_touches_nothing')],
          raises={},
          modifies=['fs', 'alloc'], props=['C16'])
 invariant(FIN + ':_cleanup_network', 0, 'for ip in ips',
           ['env_ok(tm_env)', 'unique_name == uname_of(app)', 'app_network is not None',
            'app_network["vip"] == net_vip(unique_name) and app_network["external_ip"] == net_ext(unique_name)',
            ('C16', 'only_own_removed(tm_env, app, unique_name, net_vip(unique_name), net_ext(unique_name))'),
+           ('C16', 'ipsets_only(tm_env, app, net_vip(unique_name), False)'),
            ('C16', 'forall(lambda j: implies(0 <= j and j < _i, not owned(tm_env, pt_key(_seq[j], net_vip(unique_name)), unique_name)), "Int")')])
 invariant(FIN + ':_cleanup_network', 1, 'for endpoint in app.endpoints',
           ['env_ok(tm_env)', 'unique_name == uname_of(app)', 'app_network is not None',
@@ -280,6 +325,9 @@ invariant(FIN + ':_cleanup_network', 1, 'for endpoint in app.endpoints',
            ('C16', 'implies(app.passthrough is not None, forall(lambda j: implies(0 <= j and j < len(app.passthrough), '
                    '  not owned(tm_env, pt_key(host_ip(app.passthrough[j]), net_vip(unique_name)), unique_name)), "Int"))'),
            ('C16', 'implies(app.vring, fs_kind(ipset_dir("tm:vring-containers"), ipset_entry(str_of(net_vip(unique_name)))) == 0)'),
+           ('C16', 'ipsets_only(tm_env, app, net_vip(unique_name), False)'),
+           ('C16', 'forall(lambda j: implies(0 <= j and j < _i and app.endpoints[j].type == "infra", '
+                   '  infra_present(net_vip(unique_name), app.endpoints[j].proto, app.endpoints[j].port) == 0), "Int")'),
            ('C16', 'forall(lambda j: implies(0 <= j and j < _i, '
                    '  not owned(tm_env, dnat_key(app.endpoints[j], net_ext(unique_name), net_vip(unique_name)), unique_name) and '
                    '  not owned(tm_env, snat_key(app.endpoints[j], net_ext(unique_name), net_vip(unique_name)), unique_name)), "Int")')])
@@ -321,26 +369,48 @@ contract(RUN + ':_unshare_network',
          raises={'OSError': [('C16', 'only_registrations_added(tm_env, app, uname_of(app))', 'failed_start_only_registrations')]},
          ensures=[('C16', 'only_registrations_added(tm_env, app, uname_of(app))', 'only_registrations_added'),
                   ('C16', 'forall(lambda n: implies(reg_rule(app, app.network.vip, app.network.external_ip, n), '
-                          '       owned(tm_env, n, uname_of(app))), "Name")', 'all_registrations_bound')],
+                          '       owned(tm_env, n, uname_of(app))), "Name")', 'all_registrations_bound'),
+                  ('C16', 'ipsets_only(tm_env, app, app.network.vip, True)', 'only_own_ipset_entries_added'),
+                  ('C16', 'forall(lambda j: implies(0 <= j and j < len(app.endpoints) and app.endpoints[j].type == "infra", '
+                          '  infra_present(app.network.vip, app.endpoints[j].proto, app.endpoints[j].port) == 1), "Int")',
+                   'endpoint_infra_entries_added'),
+                  ('C16', 'forall(lambda j: implies(0 <= j and j < len(app.ephemeral_ports.tcp), '
+                          '  infra_present(app.network.vip, "tcp", app.ephemeral_ports.tcp[j]) == 1), "Int")', 'tcp_infra_entries_added'),
+                  ('C16', 'forall(lambda j: implies(0 <= j and j < len(app.ephemeral_ports.udp), '
+                          '  infra_present(app.network.vip, "udp", app.ephemeral_ports.udp[j]) == 1), "Int")', 'udp_infra_entries_added'),
+                  ('C16', 'implies(app.vring and len(app.endpoints) > 0, vring_present(app.network.vip) == 1)', 'vring_entry_added')],
          modifies=['fs', 'alloc'], props=['C16'])
 INV_START = ['env_ok(tm_env)', 'unique_name == uname_of(app)',
-             ('C16', 'only_registrations_added(tm_env, app, unique_name)')]
+             ('C16', 'only_registrations_added(tm_env, app, unique_name)'),
+             ('C16', 'ipsets_only(tm_env, app, app.network.vip, True)')]
+EP_INFRA = ('C16', 'forall(lambda j: implies(0 <= j and j < len(app.endpoints) and app.endpoints[j].type == "infra", '
+                   '  infra_present(app.network.vip, app.endpoints[j].proto, app.endpoints[j].port) == 1), "Int")')
+VRING_IN = ('C16', 'implies(app.vring and len(app.endpoints) > 0, vring_present(app.network.vip) == 1)')
 invariant(RUN + ':_unshare_network', 0, 'for endpoint in app.endpoints', INV_START + [
+    ('C16', 'forall(lambda j: implies(0 <= j and j < _i and app.endpoints[j].type == "infra", '
+            '  infra_present(app.network.vip, app.endpoints[j].proto, app.endpoints[j].port) == 1), "Int")'),
+    ('C16', 'implies(app.vring and _i > 0, vring_present(app.network.vip) == 1)'),
     ('C16', 'forall(lambda j: implies(0 <= j and j < _i, '
             '  owned(tm_env, dnat_key(app.endpoints[j], app.network.external_ip, app.network.vip), unique_name) and '
             '  owned(tm_env, snat_key(app.endpoints[j], app.network.external_ip, app.network.vip), unique_name)), "Int")')])
 EP_DONE = ('C16', 'forall(lambda j: implies(0 <= j and j < len(app.endpoints), '
                   '  owned(tm_env, dnat_key(app.endpoints[j], app.network.external_ip, app.network.vip), unique_name) and '
                   '  owned(tm_env, snat_key(app.endpoints[j], app.network.external_ip, app.network.vip), unique_name)), "Int")')
-invariant(RUN + ':_unshare_network', 1, 'for port in app.ephemeral_ports.tcp', INV_START + [EP_DONE,
+invariant(RUN + ':_unshare_network', 1, 'for port in app.ephemeral_ports.tcp', INV_START + [EP_DONE, EP_INFRA, VRING_IN,
+    ('C16', 'forall(lambda j: implies(0 <= j and j < _i, infra_present(app.network.vip, "tcp", app.ephemeral_ports.tcp[j]) == 1), "Int")'),
     ('C16', 'forall(lambda j: implies(0 <= j and j < _i, owned(tm_env, eph_key("tcp", app.network.external_ip, '
             '  app.network.vip, app.ephemeral_ports.tcp[j]), unique_name)), "Int")')])
 TCP_DONE = ('C16', 'forall(lambda j: implies(0 <= j and j < len(app.ephemeral_ports.tcp), owned(tm_env, eph_key("tcp", '
                    '  app.network.external_ip, app.network.vip, app.ephemeral_ports.tcp[j]), unique_name)), "Int")')
-invariant(RUN + ':_unshare_network', 2, 'for port in app.ephemeral_ports.udp', INV_START + [EP_DONE, TCP_DONE,
+TCP_IN = ('C16', 'forall(lambda j: implies(0 <= j and j < len(app.ephemeral_ports.tcp), '
+                 '  infra_present(app.network.vip, "tcp", app.ephemeral_ports.tcp[j]) == 1), "Int")')
+invariant(RUN + ':_unshare_network', 2, 'for port in app.ephemeral_ports.udp', INV_START + [EP_DONE, TCP_DONE, EP_INFRA, VRING_IN, TCP_IN,
+    ('C16', 'forall(lambda j: implies(0 <= j and j < _i, infra_present(app.network.vip, "udp", app.ephemeral_ports.udp[j]) == 1), "Int")'),
     ('C16', 'forall(lambda j: implies(0 <= j and j < _i, owned(tm_env, eph_key("udp", app.network.external_ip, '
             '  app.network.vip, app.ephemeral_ports.udp[j]), unique_name)), "Int")')])
 UDP_DONE = ('C16', 'forall(lambda j: implies(0 <= j and j < len(app.ephemeral_ports.udp), owned(tm_env, eph_key("udp", '
                    '  app.network.external_ip, app.network.vip, app.ephemeral_ports.udp[j]), unique_name)), "Int")')
-invariant(RUN + ':_unshare_network', 3, 'for ipaddr in new_ips', INV_START + [EP_DONE, TCP_DONE, UDP_DONE,
+UDP_IN = ('C16', 'forall(lambda j: implies(0 <= j and j < len(app.ephemeral_ports.udp), '
+                 '  infra_present(app.network.vip, "udp", app.ephemeral_ports.udp[j]) == 1), "Int")')
+invariant(RUN + ':_unshare_network', 3, 'for ipaddr in new_ips', INV_START + [EP_DONE, TCP_DONE, UDP_DONE, EP_INFRA, VRING_IN, TCP_IN, UDP_IN,
     ('C16', 'forall(lambda j: implies(0 <= j and j < _i, owned(tm_env, pt_key(_seq[j], app.network.vip), unique_name)), "Int")')])
